@@ -31,6 +31,17 @@ type Input struct {
 	Slots   int      `json:"slots,omitempty"`
 	Params  []string `json:"params,omitempty"`
 	Default int      `json:"default,omitempty"`
+	// multi-step sequence on ONE tree object (built from Tree, after the optional Clone): renders interleaved
+	// with Merge / Insert calls on that same object
+	Steps []Step `json:"steps,omitempty"`
+}
+
+type Step struct {
+	Op     string       `json:"op"` // "render" | "merge" | "insert"
+	Budget int          `json:"budget,omitempty"`
+	Tree   *treeu.JNode `json:"tree,omitempty"` // merge: the source tree
+	Key    []byte       `json:"key,omitempty"`  // insert
+	Value  uint64       `json:"value,omitempty"`
 }
 
 var names = [][]byte{[]byte("a"), []byte("b"), []byte("c"), []byte("other"), []byte(""), []byte("total"),
@@ -153,6 +164,39 @@ func gen(r *rand.Rand, idx int, tier string) Input {
 		g.selfs = []uint64{0, 0, 0, 1}
 		in.Kind = "zeros"
 	}
+	if idx%10 == 1 || idx%10 == 4 { // multi-step on one tree object
+		in.Kind = "sequence"
+		g.selfs = []uint64{0, 1, 1, 2, 3, 5, 10, 30, 100}
+		in.Tree = g.node([]byte(""), 0)
+		in.Budgets = []int{1024}
+		n1 := count(in.Tree)
+		mk := func() *treeu.JNode {
+			g2 := &genCtx{r: r, left: lib.Range(r, 1, 8), maxDepth: lib.Range(r, 1, 3), selfs: g.selfs}
+			return g2.node([]byte(""), 0)
+		}
+		t2, t3 := mk(), mk()
+		total := n1 + count(t2) + count(t3)
+		// budgets around the node counts before/after the merges, so that a merge moves the N-th largest total
+		nA := lib.Pick(r, []int{n1, n1 + 1, lib.Range(r, 1, total), lib.Range(r, 2, n1+count(t2))})
+		nB := lib.Range(r, 1, total+1)
+		key := append(append([]byte{}, lib.Pick(r, names)...), append([]byte(";"), lib.Pick(r, names)...)...)
+		in.Steps = []Step{
+			{Op: "render", Budget: nA},
+			{Op: "merge", Tree: t2},
+			{Op: "render", Budget: nA},
+			{Op: "render", Budget: nB},
+			{Op: "render", Budget: nA},
+			{Op: "merge", Tree: t3},
+			{Op: "render", Budget: nA},
+			{Op: "insert", Key: key, Value: uint64(lib.Range(r, 1, 200))},
+			{Op: "render", Budget: nA},
+			{Op: "render", Budget: nB},
+		}
+		if lib.Chance(r, 0.3) { // insert first, then merge: the memo (if any) is dropped by one and not the other
+			in.Steps = append([]Step{{Op: "render", Budget: nA}, {Op: "insert", Key: key, Value: 7}}, in.Steps...)
+		}
+		return in
+	}
 	in.Tree = g.node(rootName, 0)
 	if in.Kind == "inconsistent" {
 		perturb(r, in.Tree)
@@ -257,6 +301,55 @@ func run(in Input) (res lib.Result) {
 	if treeu.Coq(t.VerifDump()) != before {
 		return lib.Result{Crash: "rendering modified the tree"}
 	}
+	// multi-step sequence on the same tree object
+	var seq []string
+	seqRenders, seqMerges, sameBudgetAfterMerge := 0, 0, 0
+	lastBudgetBeforeMerge := map[int]bool{}
+	mergedSince := false
+	for _, st := range in.Steps {
+		switch st.Op {
+		case "merge":
+			if st.Tree == nil {
+				continue
+			}
+			t.Merge(tree.VerifBuild(treeu.FromJ(st.Tree)))
+			seqMerges++
+			mergedSince = true
+		case "insert":
+			t.Insert(st.Key, st.Value)
+		case "render":
+			if st.Budget < 1 {
+				continue
+			}
+			cur := treeu.Coq(t.VerifDump())
+			var fs *tree.Flamebearer
+			var minv uint64
+			crash := ""
+			func() {
+				defer func() {
+					if r := recover(); r != nil {
+						crash = fmt.Sprintf("FlamebearerStruct(%d) in a sequence panicked: %v", st.Budget, r)
+					}
+				}()
+				fs = t.FlamebearerStruct(st.Budget)
+				minv = t.VerifMinValue(st.Budget)
+			}()
+			if crash != "" {
+				return lib.Result{Crash: crash}
+			}
+			if treeu.Coq(t.VerifDump()) != cur {
+				return lib.Result{Crash: "rendering modified the tree (sequence)"}
+			}
+			seq = append(seq, lib.Pair(cur, coqRun(st.Budget, fs, minv)))
+			seqRenders++
+			if mergedSince && lastBudgetBeforeMerge[st.Budget] {
+				sameBudgetAfterMerge++
+			}
+			if !mergedSince {
+				lastBudgetBeforeMerge[st.Budget] = true
+			}
+		}
+	}
 	// more features
 	nodes, zeros, literalOther, depthMax := 0, 0, 0, 0
 	seen := map[string]map[int]bool{}
@@ -282,14 +375,15 @@ func run(in Input) (res lib.Result) {
 			repeated++
 		}
 	}
-	coq := "{| c_tree := " + before + "; c_runs := " + lib.List(runs) + " |}"
+	coq := "{| c_tree := " + before + "; c_runs := " + lib.List(runs) + "; c_seq := " + lib.List(seq) + " |}"
 	return lib.Result{
 		Coq:        coq,
-		NonTrivial: folded > 0 || ties > 0,
+		NonTrivial: folded > 0 || ties > 0 || sameBudgetAfterMerge > 0,
 		Feat: map[string]interface{}{"kind": in.Kind, "nodes": nodes, "depth": depthMax, "zero_total_frames": zeros,
 			"frames_named_other": literalOther, "names_at_several_depths": repeated,
 			"budgets_with_fold": folded, "budgets_with_tie_at_theta": ties, "other_bars": others,
-			"scaled": in.D != 0 && !(in.M == in.D)},
+			"scaled": in.D != 0 && !(in.M == in.D),
+			"seq_renders": seqRenders, "seq_merges": seqMerges, "seq_same_budget_after_merge": sameBudgetAfterMerge},
 		Obs: map[string]interface{}{"runs": len(runs), "summary": strings.TrimSpace(fmt.Sprintf("%d nodes, %d budgets", nodes, len(runs)))},
 	}
 }
